@@ -19,6 +19,10 @@ def jobs_for(ctx, n):
             for sh in ([0, rng.choice([1, 2, 5, 40])] if ctx.quick else [0, 1, 3, 40]):
                 reqs.append({"iface": iface, "split": 0, "shuffle": sh, "repeat": True, "file_parallelism": rng.choice([1, 2, 3, 4, 5, 8, 16]),
                              "epochs": rng.choice([2, 3]), "extra": rng.choice([0, 1, 2])})
+        if "tf" in iterlib.ifaces_for(spec):
+            # batches that do not divide the split: a batch may straddle two epochs, nothing may be dropped at the boundary
+            reqs.append({"iface": "tf", "split": 0, "shuffle": 0, "repeat": True, "file_parallelism": rng.choice([1, 2, 4]), "batch": rng.choice([2, 3, 5, 7, 16]),
+                         "epochs": 3, "extra": rng.choice([0, 1])})
         jobs.append({"dataset": spec, "requests": reqs})
     # two repeating streams alive at once and pulled alternately (training / validation), per interface
     W = lambda s: ["W", s, None, True]  # noqa: E731
